@@ -132,6 +132,51 @@ theorem lexOne_spec (c : Char) (cs : List Char) :
       simp only
       exact ⟨this.1, this.2, by simp⟩
 
+theorem lexOne_kind (c : Char) (cs : List Char) :
+    (lexOne (c :: cs)).1 ≠ .eof ∧ ((lexOne (c :: cs)).2.1 = none → (lexOne (c :: cs)).1 ≠ .error) ∧
+      ((lexOne (c :: cs)).2.1 ≠ none → (lexOne (c :: cs)).1 = .error) := by
+  by_cases h1 : isWsChar c = true
+  · simp [lexOne, h1]
+  by_cases h2 : (c == '\n') = true
+  · simp [lexOne, h1, h2]
+  by_cases h3 : (c == '\r') = true
+  · have : c = '\r' := by simpa using h3
+    subst this
+    have e1 : isWsChar '\r' = false := by decide
+    have e2 : ('\r' == '\n') = false := by decide
+    simp only [lexOne, e1, e2, Bool.false_eq_true, if_false, beq_self_eq_true, if_true]
+    split <;> simp
+  by_cases h4 : (c == '{') = true
+  · simp [lexOne, h1, h2, h3, h4]
+  by_cases h5 : (c == '}') = true
+  · simp [lexOne, h1, h2, h3, h4, h5]
+  by_cases h6 : (c == '[') = true
+  · simp [lexOne, h1, h2, h3, h4, h5, h6]
+  by_cases h7 : (c == ']') = true
+  · simp [lexOne, h1, h2, h3, h4, h5, h6, h7]
+  by_cases h8 : (c == ',') = true
+  · simp [lexOne, h1, h2, h3, h4, h5, h6, h7, h8]
+  by_cases h9 : (c == ':') = true
+  · simp [lexOne, h1, h2, h3, h4, h5, h6, h7, h8, h9]
+  by_cases h10 : (c == '"') = true
+  · simp only [lexOne, h1, h2, h3, h4, h5, h6, h7, h8, h9, h10, if_true, if_false]
+    by_cases hc : (scanString cs).2.2 = true
+    · simp [hc]
+    · simp [hc]
+  by_cases h11 : isAlphaC c = true
+  · simp only [lexOne, h1, h2, h3, h4, h5, h6, h7, h8, h9, h10, h11, if_true, if_false]
+    by_cases w1 : (c :: (takeWhileC isAlnumC cs).1 == ['t', 'r', 'u', 'e']) = true
+    · simp [w1]
+    by_cases w2 : (c :: (takeWhileC isAlnumC cs).1 == ['f', 'a', 'l', 's', 'e']) = true
+    · simp [w1, w2]
+    by_cases w3 : (c :: (takeWhileC isAlnumC cs).1 == ['n', 'u', 'l', 'l']) = true
+    · simp [w1, w2, w3]
+    · simp [w1, w2, w3]
+  · simp only [lexOne, h1, h2, h3, h4, h5, h6, h7, h8, h9, h10, h11, if_false]
+    cases hn : scanNumber (c :: cs) with
+    | none => simp
+    | some nr => obtain ⟨n, rest⟩ := nr; simp
+
 /-! ### byte sizes of the ASCII characters the string checker looks at -/
 
 theorem utf8Size_of_lt {c : Char} (h : c.toNat < 128) : c.utf8Size = 1 := by
@@ -367,5 +412,71 @@ theorem lexLoop_ok (src : List Char) :
 
 theorem tokenize_ok (src : List Char) : LexOk src (tokenize src) :=
   lexLoop_ok src src.length src 0 0 0 [] [] [] (by simp) rfl (by simp) List.Pairwise.nil (by simp)
+
+/-- token kinds: never `EOF`; an `Error` token only together with a diagnostic -/
+theorem lexLoop_kinds :
+    ∀ (fuel : Nat) (cs : List Char) (pos : Nat) (nb nk : Int) (toks : List Token) (diags : List Diag),
+      (∀ t ∈ toks, t.kind ≠ .eof) → ((∃ t ∈ toks, t.kind = .error) → diags ≠ []) →
+      let r := lexLoop fuel cs pos nb nk toks diags
+      (∀ t ∈ r.tokens, t.kind ≠ .eof) ∧ ((∃ t ∈ r.tokens, t.kind = .error) → r.diags ≠ []) ∧
+        (diags ≠ [] → r.diags ≠ []) := by
+  intro fuel
+  induction fuel with
+  | zero =>
+    intro cs pos nb nk toks diags h1 h2
+    simp only [lexLoop]
+    exact ⟨fun t h => h1 t (by simpa using h), fun ⟨t, ht, hk⟩ => by simpa using h2 ⟨t, by simpa using ht, hk⟩,
+      fun h => by simpa using h⟩
+  | succ fuel ih =>
+    intro cs pos nb nk toks diags h1 h2
+    have fin : (∀ t ∈ (⟨toks.reverse, diags.reverse⟩ : LexResult).tokens, t.kind ≠ .eof) ∧
+        ((∃ t ∈ (⟨toks.reverse, diags.reverse⟩ : LexResult).tokens, t.kind = .error) →
+          (⟨toks.reverse, diags.reverse⟩ : LexResult).diags ≠ []) ∧
+        (diags ≠ [] → (⟨toks.reverse, diags.reverse⟩ : LexResult).diags ≠ []) :=
+      ⟨fun t h => h1 t (by simpa using h), fun ⟨t, ht, hk⟩ => by simpa using h2 ⟨t, by simpa using ht, hk⟩,
+        fun h => by simpa using h⟩
+    cases cs with
+    | nil => simpa only [lexLoop] using fin
+    | cons c cs =>
+      simp only [lexLoop]
+      obtain ⟨k1, k2, k3⟩ := lexOne_kind c cs
+      generalize lexOne (c :: cs) = r at k1 k2 k3
+      obtain ⟨kind, dk, text, rest⟩ := r
+      simp only at k1 k2 k3 ⊢
+      cases dk with
+      | some dkind =>
+        simp only
+        have := ih rest (pos + utf8Len text) nb nk (⟨.error, pos, pos + utf8Len text⟩ :: toks)
+          (⟨dkind, pos, pos + utf8Len text⟩ :: diags)
+          (by intro t ht; rcases List.mem_cons.1 ht with rfl | ht
+              · simp
+              · exact h1 t ht)
+          (by intro _; simp)
+        exact ⟨this.1, this.2.1, fun _ => this.2.2 (by simp)⟩
+      | none =>
+        simp only
+        have hk2 := k2 rfl
+        have hd1 : diags ≠ [] → (if kind == .string then (checkString pos text).reverse ++ diags else diags) ≠ [] := by
+          intro h; split <;> simp [h]
+        generalize (if kind == .string then (checkString pos text).reverse ++ diags else diags) = diags1 at hd1 ⊢
+        generalize (if kind == Tok.lbrace then nb + 1 else if kind == Tok.rbrace then nb - 1 else nb) = nb'
+        generalize (if kind == Tok.lbrak then nk + 1 else if kind == Tok.rbrak then nk - 1 else nk) = nk'
+        split
+        · exact ⟨fun t h => h1 t (by simpa using h), fun _ => by simp, fun _ => by simp⟩
+        · have := ih rest (pos + utf8Len text) nb' nk' (⟨kind, pos, pos + utf8Len text⟩ :: toks) diags1
+            (by intro t ht; rcases List.mem_cons.1 ht with rfl | ht
+                · exact k1
+                · exact h1 t ht)
+            (by rintro ⟨t, ht, hk⟩
+                rcases List.mem_cons.1 ht with rfl | ht
+                · exact absurd hk hk2
+                · exact hd1 (h2 ⟨t, ht, hk⟩))
+          exact ⟨this.1, this.2.1, fun h => this.2.2 (hd1 h)⟩
+
+theorem tokenize_kinds (src : List Char) :
+    (∀ t ∈ (tokenize src).tokens, t.kind ≠ .eof) ∧
+    ((tokenize src).diags = [] → ∀ t ∈ (tokenize src).tokens, t.kind ≠ .error) := by
+  have := lexLoop_kinds src.length src 0 0 0 [] [] (by simp) (by simp)
+  refine ⟨this.1, fun hd t ht hk => this.2.1 ⟨t, ht, hk⟩ hd⟩
 
 end ShapeVerif
